@@ -211,7 +211,7 @@ func c13Scenario(idx int, steps []c13Step, o, ot *peer) (map[string]any, []map[s
 		}
 		c := get(st.C)
 		k := st.K
-		if c.mitm && (k == "connect_tunnel" || k == "connect_rejected" || k == "upgrade" || k == "mitm_connect" || k == "connect_write_error") {
+		if c.mitm && (k == "connect_tunnel" || k == "connect_rejected" || k == "upgrade" || k == "upgrade_close" || k == "mitm_connect" || k == "connect_write_error") {
 			k = "ok" // inside an intercepted session only plain requests are sent
 		}
 		evs = append(evs, map[string]any{"ev": "exchange", "c": st.C, "k": k})
@@ -260,15 +260,21 @@ func c13Scenario(idx int, steps []c13Step, o, ot *peer) (map[string]any, []map[s
 				fail(fmt.Sprintf("rejected CONNECT expected 502: %v", err))
 			}
 			expectCodes["502"]++
-		case "upgrade":
-			c.raw.send([]byte("GET http://origin.test/ws HTTP/1.1\r\nHost: origin.test\r\nConnection: Upgrade\r\nUpgrade: websocket\r\n\r\n"))
+		case "upgrade", "upgrade_close":
+			opt := "Upgrade"
+			if st.K == "upgrade_close" {
+				opt = "Upgrade, close"
+			}
+			c.raw.send([]byte("GET http://origin.test/ws HTTP/1.1\r\nHost: origin.test\r\nConnection: " + opt + "\r\nUpgrade: websocket\r\n\r\n"))
 			if r, err := readWireResponseHeadOnlyT(c.raw, 8*time.Second); err != nil || r.Status != 101 {
 				fail(fmt.Sprintf("101 expected: %v", err))
 			} else {
 				c.raw.send([]byte("ping"))
 				buf := make([]byte, 4)
 				c.raw.conn.SetReadDeadline(time.Now().Add(5 * time.Second))
-				io.ReadFull(c.raw.br, buf)
+				if _, err := io.ReadFull(c.raw.br, buf); err != nil || string(buf) != "pong" {
+					fail(fmt.Sprintf("the tunnel set up by the 101 carried nothing (%q, %v)", buf, err))
+				}
 			}
 			expectCodes["101"]++
 			drop(st.C)
